@@ -53,7 +53,7 @@ Local Notation zF := (fofZ D).
 Record atom := mkatom {
   a_idx : Z;       (* GetIdx *)
   a_num : Z;       (* GetAtomicNum *)
-  a_deg : Z;       (* GetDegree *)
+  a_deg : Z;       (* number of heavy-atom neighbours (the floating-atom test) *)
   a_tdeg : Z;      (* GetTotalDegree *)
   a_tval : Z;      (* GetTotalValence *)
   a_nh : Z;        (* GetTotalNumHs(includeNeighbors=True) *)
@@ -158,8 +158,9 @@ Variable sc : scene.
 
 Definition links_of (a : Z) : list link := aget [] (sc_links sc) a.
 
-(* get_match_atoms at radius k * multiplier: d <= k*mult  <=>  d^2 * mden^2 <= k^2 * mnum^2 * unit2 *)
+(* get_match_atoms at radius k * multiplier: d <= k*mult  <=>  0 <= k*mult  and  d^2 * mden^2 <= k^2 * mnum^2 * unit2 *)
 Definition near (k : Z) (l : link) : bool :=
+  (0 <=? k * o_mnum o) &&       (* a negative radius (negative multiplier) contains nothing: distances are >= 0 *)
   fleb D (lk_d2 l *' zF (o_mden o * o_mden o)) (zF (k * k * (o_mnum o * o_mnum o)) *' sc_unit2 sc).
 
 Definition nbrs (k : Z) (a : Z) : list link :=
